@@ -26,7 +26,13 @@ def run(seed):
             return seed, {"error": "patch does not apply: " + r.stderr[:200]}
         out = {}
         env = dict(os.environ, VSTAT_NO_EVIDENCE="1", VSTAT_WORKERS=os.environ.get("VSTAT_WORKERS", "4"))
-        for prop in built:
+        props = built
+        meta_path = VERIF / SEED_DIR / seed / "meta.json"
+        if os.environ.get("ONLY_RECORDED") and meta_path.exists():
+            # regression mode: only the properties on record as reporting this seed (meta.json caught_by)
+            rec = json.loads(meta_path.read_text()).get("caught_by") or []
+            props = [p_ for p_ in built if p_ in rec] or built
+        for prop in props:
             p = subprocess.run(["/venv/bin/python", "-m", "vstat", prop, "--repo", wt], cwd=SNAP, capture_output=True, text=True, env=env)
             rules = sorted({l.split()[0] for l in p.stdout.splitlines() if l.startswith("  C")})
             out[prop] = {"exit": p.returncode, "rules": rules}
@@ -47,7 +53,11 @@ lock = threading.Lock()
 def report(seed, r):
     with lock:  # results are stored as they arrive, so an interrupted run keeps what it has
         old = json.loads(matrix_path.read_text()) if matrix_path.exists() else {}
-        old[seed] = r
+        stored = r
+        if os.environ.get("ONLY_RECORDED") and isinstance(old.get(seed), dict) and "error" not in r:
+            stored = dict(old[seed])
+            stored.update(r)
+        old[seed] = stored
         matrix_path.write_text(json.dumps(old, indent=1, sort_keys=True))
         if "error" in r:
             print(seed, r["error"], flush=True)
